@@ -21,7 +21,7 @@ CLAIMS = {
          "Sketch state at lg_k = 4 with <= 2 surprising values; the window-moving step (move_window) is NOT decided in either tier (cut by a self-checking stub in the step harnesses).", "DESIGN.md section 4 C05"),
  "C06": ("Quick tier: the three OR kernels of the CPC union with row folding (symbolic matrices, window, offset and table), the golden-ratio table walk stride for every table size, the first update of a fresh union with a Sparse sketch (same, larger and smaller lg_k: lg_k, coupon count, folded coupon), and Hybrid / Pinned / Sliding inputs into a bit-matrix union: the union's matrix is the OR of the matrix the input denotes. Thorough tier adds two Sparse inputs (reduce_k of a non-empty accumulator), Sparse / Sliding-offset-3 inputs into a matrix, to_sketch() from a bit matrix and histories through the public update path (13 GB and more; reported UNEXPLORED when they exceed the caps).",
          "lg_k 4-6; table layouts of the Sparse inputs concrete per instance (coupon's home slot fixed, all other bits symbolic); CpcSketch::update_hip cut (float HIP accumulators are not read by the union); more than two inputs follow from associativity of OR (argued).", "DESIGN.md section 4 C06"),
- "C07": ("Quick tier: ReversePurgeItemHashMap::adjust_or_put_value over every valid 8-slot layout with symbolic home slots against an abstract map; FrequentItemsSketch update_with_count in every state and the update-side amortisation over the abstract map (map operations replaced by their contracts), with ghost true counts for every key of the domain: bracket lb <= t <= lb + offset, exact total weight, 3*offset + sum(counters) <= N (error bound N/3 <= epsilon*N), capacity; capacity / epsilon arithmetic for every map size; round trip of the never-updated and the fully purged sketch. Thorough tier adds back-shift delete and purge on the real map (every layout), merge (abstract map), the purge-side amortisation and frequent_items (6-14 min each).",
+ "C07": ("Quick tier: ReversePurgeItemHashMap::adjust_or_put_value over every valid 8-slot layout with symbolic home slots against an abstract map; FrequentItemsSketch update_with_count in every state, the update-side amortisation and merge with a one-key argument over the abstract map (map operations replaced by their contracts), with ghost true counts for every key of the domain: bracket lb <= t <= lb + offset, exact total weight, 3*offset + sum(counters) <= N (error bound N/3 <= epsilon*N), capacity; capacity / epsilon arithmetic for every map size; round trip of the never-updated and the fully purged sketch. Thorough tier adds back-shift delete and purge on the real map (every layout), merge with a purged / three-key argument, the purge-side amortisation and frequent_items (6-14 min each).",
          "Real map size 8, u64 items, key domain 8, weights < 2^58 (8-bit in the amortisation harnesses); hash_item replaced by an arbitrary symbolic function of the key; std select_nth_unstable replaced by a reference model; sketch-level harnesses run over the abstract map (contracts proven by the map harnesses); merge trees follow from the additive invariant (argued).", "DESIGN.md section 4 C07"),
  "C08": ("One update / merge / halve / decay step of CountMinSketch for the 8 counter types from an arbitrary valid 2x3 table: table equals the model, one-sided guarantee for the updated item and a bystander via ghost true counts, estimate <= total; row seeds and entry arithmetic against reference derivations.",
          "2x3 table; hash inputs concrete (constant-folded real MurmurHash) while table, weights and ghost counts are symbolic; decay factors concrete; the confidence (fraction) clause is statistical and not claimed.", "DESIGN.md section 4 C08"),
